@@ -1,0 +1,45 @@
+// Licensed to Elasticsearch B.V. under one or more contributor
+// license agreements. See the NOTICE file distributed with
+// this work for additional information regarding copyright
+// ownership. Elasticsearch B.V. licenses this file to you under
+// the Apache License, Version 2.0 (the "License"); you may
+// not use this file except in compliance with the License.
+// You may obtain a copy of the License at
+//
+//     http://www.apache.org/licenses/LICENSE-2.0
+//
+// Unless required by applicable law or agreed to in writing,
+// software distributed under the License is distributed on an
+// "AS IS" BASIS, WITHOUT WARRANTIES OR CONDITIONS OF ANY
+// KIND, either express or implied.  See the License for the
+// specific language governing permissions and limitations
+// under the License.
+
+//go:build verif
+
+package libaudit
+
+// Yield points between the atomic steps of the Reassembler, reported to
+// VerifYield when built with the verif tag.
+const (
+	verifPushStart = iota + 1
+	verifPushAfterPut
+	verifPushAfterCleanUp
+	verifMaintainStart
+	verifMaintainAfterLoad
+	verifMaintainAfterCleanUp
+	verifCloseStart
+	verifCloseAfterCAS
+	verifCloseAfterClear
+	verifBeforeCallback
+)
+
+// VerifYield, when set, is called at every yield point with the point's
+// number. It lets a test harness control the interleaving of goroutines.
+var VerifYield func(point int)
+
+func verifYield(point int) {
+	if f := VerifYield; f != nil {
+		f(point)
+	}
+}
